@@ -133,4 +133,24 @@ pub fn run_prop(ctx: &Ctx, sink: &mut Sink) {
         sink.push(Case { req: format!("pipe0 P {} {}", worlds.join(";"), toks.join(",")), imp: format!("fst={fst} xst={xst} args={}", hex_list(&delivered)), tags });
         let _ = std::fs::remove_dir_all(ctx.scratch("bigmb"));
     }
+    // ---- a newline early in a long path: the record must reach the pipe whole (the standard output of the
+    // binary is line-buffered: what follows the newline must not be lost when it exceeds the buffer)
+    {
+        let dir = ctx.scratch("nlpath").join("pad").join("w");
+        let mut deep = dir.join("top").join("with\nnewline");
+        for i in 0..5 { deep = deep.join(format!("{}{}", i, "L".repeat(229))); }
+        std::fs::create_dir_all(&deep).unwrap();
+        std::fs::write(deep.join("leaf"), b"").unwrap();
+        std::fs::write(dir.join("top").join("plain"), b"").unwrap();
+        let roots = vec![(b"top".to_vec(), crate::world::observe_root(b"top", &dir.join("top")))];
+        let toks: Vec<String> = vec!["sorted".into(), "print0".into()];
+        let mut args: Vec<String> = vec!["top".into()];
+        args.extend(argv_of(&toks, &mut rng));
+        let worlds: Vec<String> = roots.iter().map(|(_, w)| w.clone()).collect();
+        let (fst, xst, inv) = run_pipe0(ctx, &args, &dir, false);
+        let mut delivered: Vec<Vec<u8>> = vec![];
+        for i in &inv { delivered.extend(i.argv.iter().skip(1).cloned()); }
+        sink.push(Case { req: format!("pipe0 P {} {}", worlds.join(";"), toks.join(",")), imp: format!("fst={fst} xst={xst} args={}", hex_list(&delivered)), tags: vec!["pipe", "newline-long-tail", "nt"] });
+        let _ = std::fs::remove_dir_all(ctx.scratch("nlpath"));
+    }
 }
